@@ -374,6 +374,8 @@ func (p sbProv) SignedBeaconBlock(ctx context.Context, _ *api.SignedBeaconBlockO
 		Phase0: &phase0.SignedBeaconBlock{Message: &phase0.BeaconBlock{Slot: c07Slot, ParentRoot: root(k), Body: &phase0.BeaconBlockBody{ETH1Data: &phase0.ETH1Data{BlockHash: make([]byte, 32)}}}}}, Metadata: map[string]any{}}, nil
 }
 
+// The strategies that take a process concurrency are given 1, the value a single-CPU host gets by default (it is
+// GOMAXPROCS): asking all nodes at once must not depend on it.
 func c07Strats() []c07Strat {
 	mon := &nullmetrics.Service{}
 	bg := context.Background()
@@ -385,7 +387,7 @@ func c07Strats() []c07Strat {
 	_ = ct
 	return []c07Strat{
 		{name: "attestationdata/best", fam: "best", kinds: "ABGKIJE", mk: func(e *c07Env) func(context.Context) (byte, error) {
-			s, err := adbest.New(bg, adbest.WithLogLevel(zerolog.Disabled), adbest.WithClientMonitor(mon), adbest.WithProcessConcurrency(4),
+			s, err := adbest.New(bg, adbest.WithLogLevel(zerolog.Disabled), adbest.WithClientMonitor(mon), adbest.WithProcessConcurrency(1),
 				adbest.WithTimeout(c07Timeout), adbest.WithChainTime(newChainTime(0, 12*time.Second, 32)), adbest.WithBlockRootToSlotCache(tableCache{}),
 				adbest.WithAttestationDataProviders(adProviders(e)))
 			must(err)
@@ -396,7 +398,7 @@ func c07Strats() []c07Strat {
 			}
 		}},
 		{name: "attestationdata/majority", fam: "majority", kinds: "ABCIJE", thresh: true, mk: func(e *c07Env) func(context.Context) (byte, error) {
-			s, err := admajority.New(bg, admajority.WithLogLevel(zerolog.Disabled), admajority.WithClientMonitor(mon), admajority.WithProcessConcurrency(4),
+			s, err := admajority.New(bg, admajority.WithLogLevel(zerolog.Disabled), admajority.WithClientMonitor(mon), admajority.WithProcessConcurrency(1),
 				admajority.WithTimeout(c07Timeout), admajority.WithChainTime(newChainTime(0, 12*time.Second, 32)), admajority.WithBlockRootToSlotCache(tableCache{}),
 				admajority.WithThreshold(e.threshold), admajority.WithAttestationDataProviders(adProviders(e)))
 			must(err)
@@ -421,7 +423,7 @@ func c07Strats() []c07Strat {
 			for i, n := range names(len(e.nodes)) {
 				m[n] = aaProv{e, i}
 			}
-			s, err := aabest.New(bg, aabest.WithLogLevel(zerolog.Disabled), aabest.WithClientMonitor(mon), aabest.WithProcessConcurrency(4),
+			s, err := aabest.New(bg, aabest.WithLogLevel(zerolog.Disabled), aabest.WithClientMonitor(mon), aabest.WithProcessConcurrency(1),
 				aabest.WithTimeout(c07Timeout), aabest.WithAggregateAttestationProviders(m))
 			must(err)
 			return func(ctx context.Context) (byte, error) {
@@ -449,7 +451,7 @@ func c07Strats() []c07Strat {
 			for i, n := range names(len(e.nodes)) {
 				m[n] = bpProv{e, i}
 			}
-			s, err := bpbest.New(bg, bpbest.WithLogLevel(zerolog.Disabled), bpbest.WithClientMonitor(mon), bpbest.WithProcessConcurrency(4),
+			s, err := bpbest.New(bg, bpbest.WithLogLevel(zerolog.Disabled), bpbest.WithClientMonitor(mon), bpbest.WithProcessConcurrency(1),
 				bpbest.WithTimeout(c07Timeout), bpbest.WithEventsProvider(&eventsProvider{}), bpbest.WithChainTimeService(newChainTime(0, 12*time.Second, 32)),
 				bpbest.WithSpecProvider(&specProvider{m: baseSpec(12*time.Second, 32)}), bpbest.WithProposalProviders(m),
 				bpbest.WithSignedBeaconBlockProvider(c18Blocks{}), bpbest.WithBlockRootToSlotCache(tableCache{}))
@@ -478,7 +480,7 @@ func c07Strats() []c07Strat {
 			for i, n := range names(len(e.nodes)) {
 				m[n] = scProv{e, i}
 			}
-			s, err := scbest.New(bg, scbest.WithLogLevel(zerolog.Disabled), scbest.WithClientMonitor(mon), scbest.WithProcessConcurrency(4),
+			s, err := scbest.New(bg, scbest.WithLogLevel(zerolog.Disabled), scbest.WithClientMonitor(mon), scbest.WithProcessConcurrency(1),
 				scbest.WithTimeout(c07Timeout), scbest.WithSyncCommitteeContributionProviders(m))
 			must(err)
 			return func(ctx context.Context) (byte, error) {
@@ -519,7 +521,7 @@ func c07Strats() []c07Strat {
 			for i, n := range names(len(e.nodes)) {
 				m[n] = brProv{e, i}
 			}
-			s, err := brlatest.New(bg, brlatest.WithLogLevel(zerolog.Disabled), brlatest.WithClientMonitor(mon), brlatest.WithProcessConcurrency(4),
+			s, err := brlatest.New(bg, brlatest.WithLogLevel(zerolog.Disabled), brlatest.WithClientMonitor(mon), brlatest.WithProcessConcurrency(1),
 				brlatest.WithTimeout(c07Timeout), brlatest.WithBlockRootToSlotCache(tableCache{}), brlatest.WithBeaconBlockRootProviders(m))
 			must(err)
 			return func(ctx context.Context) (byte, error) {
@@ -533,7 +535,7 @@ func c07Strats() []c07Strat {
 			for i, n := range names(len(e.nodes)) {
 				m[n] = brProv{e, i}
 			}
-			s, err := brmajority.New(bg, brmajority.WithLogLevel(zerolog.Disabled), brmajority.WithClientMonitor(mon), brmajority.WithProcessConcurrency(4),
+			s, err := brmajority.New(bg, brmajority.WithLogLevel(zerolog.Disabled), brmajority.WithClientMonitor(mon), brmajority.WithProcessConcurrency(1),
 				brmajority.WithTimeout(c07Timeout), brmajority.WithBlockRootToSlotCache(tableCache{}), brmajority.WithBeaconBlockRootProviders(m))
 			must(err)
 			return func(ctx context.Context) (byte, error) {
